@@ -4,7 +4,6 @@ package main
 // the Lean host automaton on the same scripts; plus implementation-side oracles.
 
 import (
-	"bytes"
 	"context"
 	"fmt"
 	"os"
@@ -199,10 +198,14 @@ func runScenario(sc scenario, idx int) runResult {
 	cmd.Dir = dir
 	cmd.Env = append(os.Environ(), "PATH="+fakeBinDir()+":"+os.Getenv("PATH"), "VERIF_FAKE_DIR="+scripts)
 	cmd.SysProcAttr = &syscall.SysProcAttr{Setpgid: true}
-	var stderr bytes.Buffer
-	cmd.Stderr = &stderr
-	cmd.Stdout = &stderr
+	// stderr goes to a FILE: with a pipe, exec.Cmd.Wait would also wait for the plugins (which
+	// inherit the host's stderr) and "the host exited before the plugin" could never be seen
+	errPath := filepath.Join(dir, "stderr.txt")
+	errFile, _ := os.Create(errPath)
+	cmd.Stderr = errFile
+	cmd.Stdout = errFile
 	var res runResult
+	defer errFile.Close()
 	if err := cmd.Start(); err != nil {
 		res.exit = -1
 		res.stderr = err.Error()
@@ -227,7 +230,9 @@ func runScenario(sc scenario, idx int) runResult {
 		_, _, _, exited := parseLog(filepath.Join(scripts, p.name+".log"))
 		res.reaped = append(res.reaped, exited)
 	}
-	res.stderr = stderr.String()
+	if b, err := os.ReadFile(errPath); err == nil {
+		res.stderr = string(b)
+	}
 	// now let stragglers finish (or find them still running)
 	deadline := time.Now().Add(2 * time.Second)
 	for _, p := range sc.plugins {
